@@ -36,6 +36,10 @@ StepCall(r, wr, e) ==
                                                                        dsize |-> e.dsize, data |-> e.data])
                               ELSE wr
     [] e.op = "metadata" -> WriteMetadata(wr, [name |-> e.name, md |-> e.md])
+    [] e.op = "addschema"  -> AddSchema(wr, [id |-> e.id, name |-> e.name, enc |-> e.enc, data |-> e.data])
+    [] e.op = "addchannel" -> AddChannel(wr, [id |-> e.id, schema |-> e.schema, topic |-> e.topic, menc |-> e.menc, md |-> e.md])
+    [] e.op = "chunk" -> LET c0 == ExtChunk(e.items, e.comp, e.csize, ~wr.cfg.crc) IN
+                         CallerCounts(WriteChunkWithIndexes(wr, c0, e.given), IF c0.usize = 0 THEN <<>> ELSE e.items)
     [] e.op = "close" -> Close(wr, NextCSize(r, wr))
     [] OTHER -> wr
 
